@@ -12,6 +12,7 @@ PROP = 'C13'
 CONFIGS = ('default', 'all-nodes')
 LAYOUTS = ['plain', 'crlf', 'cr', 'bom', 'multibyte', 'spread', 'spread-crlf']
 MACHINE_N = {'quick': 6, 'thorough': 8}
+MODE_LAYOUTS = ['plain', 'crlf', 'bom', 'multibyte', 'spread-crlf']
 
 
 def run_shard(args):
@@ -22,9 +23,12 @@ def run_shard(args):
         cfg = args[1]
         texts = [(t, cfg + ' f-string product') for t in K.fstring_product(3 if args[2] == 'thorough' else 2)]
     else:
-        _, paths, d, cfg = args
-        texts = [(t, '%s %s cost=%d' % (cfg, ln, c)) for t, c, ln in R.corpus_texts(paths, d, 'file', LAYOUTS)]
-    r = R.run_texts(PROP, 'c13', texts, cfg=cfg, sig_prefix=cfg + ' · ')
+        _, paths, d, cfg = args[:4]
+        mode = args[4] if len(args) > 4 else 'exec'
+        # Mod::Expression / Mod::Interactive roots: the expression corpus in expression mode, the statement corpus in interactive mode
+        texts = [(t, '%s %s %s cost=%d' % (cfg, mode, ln, c)) for t, c, ln in R.corpus_texts(paths, d, 'exprfile' if mode == 'eval' else 'file', LAYOUTS if mode == 'exec' else MODE_LAYOUTS)]
+    mode = args[4] if args[0] == 'corpus' and len(args) > 4 else 'exec'
+    r = R.run_texts(PROP, 'c13', texts, cfg=cfg, sig_prefix=cfg + ('' if mode == 'exec' else '/' + mode) + ' · ', extra_args='' if mode == 'exec' else '\t' + mode)
     r.extra['_hashes'] = {c01.h64(t) for t, _ in texts}
     if texts:
         r.samples.append(texts[len(texts) // 2][0])
@@ -39,6 +43,10 @@ def run(tier, seed):
         jobs.append(('fstr', cfg, tier))
         for g in K.group_shards(K.shards_for(d, 'file'), 400 if tier == 'thorough' else 64):
             jobs.append(('corpus', g, d, cfg))
+        for g in K.group_shards(K.shards_for(d, 'exprfile'), 32):
+            jobs.append(('corpus', g, d, cfg, 'eval'))
+        for g in K.group_shards(K.shards_for(d - 1, 'file'), 32):
+            jobs.append(('corpus', g, d - 1, cfg, 'single'))
     total = C.Result()
     allh = set()
     mstates = 0
@@ -55,7 +63,7 @@ def run(tier, seed):
     total.extra['locator_machine_states'] = mstates
     rule = ('(1) LinearLocator cursor machine: for every text over {a, é, LF, CR} of length<=%d (and BOM + length<=%d), BFS over the states reachable by locate(o) for every '
             'character-boundary o >= cursor (states read through LinearLocator::verif_state, de-duplicated; histories replayed on fresh locators), locate_only from every state; '
-            '(2) every G_ref sentence with <=%d non-default alternatives under layouts %s, default and all-nodes builds: folds by both locators vs the reference rendering; '
+            '(2) every G_ref sentence with <=%d non-default alternatives under layouts %s, default and all-nodes builds (module mode; the expression sub-grammar in expression mode and, one level lower, interactive mode): folds by both locators vs the reference rendering; '
             'every sequence of <=2/3 literals of a 14-literal f-string set (one line / spread over lines / as call arguments); rejected sentences: both locators on the error offset; states = machine states + distinct texts' % (MACHINE_N[tier], MACHINE_N[tier] - 1, d, LAYOUTS))
     return C.finish(PROP, tier, seed, t0, total, rule,
                     ['reference line/character counter in the harness (CR, LF, CRLF one break; BOM not counted; characters, not bytes)',
@@ -76,5 +84,6 @@ def replay(path):
             print('VIOLATION property=%s replay=%s' % (PROP, path))
             return 1
         return 0
-    cfg = case['signature'].split(' · ')[0]
-    return R.replay_text(PROP, 'c13', path, cfg=cfg if cfg in CONFIGS else 'default', sig_prefix=cfg + ' · ')
+    head = case['signature'].split(' · ')[0]
+    cfg, _, mode = head.partition('/')
+    return R.replay_text(PROP, 'c13', path, cfg=cfg if cfg in CONFIGS else 'default', sig_prefix=head + ' · ', extra_args='\t' + mode if mode else '')
